@@ -57,7 +57,9 @@ POS_S = ["lsubstr(x, p)", "rsubstr(x, p)", "substr(x, p)", "subraw(raw(x), p)", 
          "x.at(p)", "raw(x).at(p)"]
 POS2_S = ["substr(x, p, q)", "subraw(raw(x), p, q)", "hex(p, q)", "raw(p, q)"]
 TERN_S = ["replace(x, y, z)", "tokenize(x, y)", "tokenize(x, y, true)", "tokenize(x, y, false)", "strpos(x, y)"]
-CODE_S = ["chr(c)", "sv.put(0, c)", "sv.concat(c)", "bv.put(0, c)", "bv.concat(c)", "raw(1, c)", "sv.insert(0, c)", "bv.insert(0, c)"]
+CODE_S = ["chr(c)", "sv.put(0, c)", "sv.concat(c)", "bv.put(0, c)", "bv.concat(c)", "raw(1, c)", "sv.insert(0, c)", "bv.insert(0, c)",
+          # receivers that are null: typed, untyped, and untyped inside a function (opaque parameter)
+          "nsv.concat(c)", "nbv.concat(c)", "nuv.concat(c)", "fcc(null, c)", "fcc(str(), c)", "fcc(raw(), c)"]
 
 
 def chained(exprs):
@@ -195,9 +197,9 @@ def gen_factory(tier):
         # G7: codes
         codes = sorted(set(int_lattice(tier)) | {254, 255, 256, 257, 127, 128, 65, 0, -1, -255, -256})
         for c in codes + [None]:
-            ops = [op_ctx(), op_setvar("C", ispec(c)), op_run('sv = "ab"; bv = raw("ab");')]
+            ops = [op_ctx(), op_setvar("C", ispec(c)), op_run('sv = "ab"; bv = raw("ab"); function fcc(x, k) return undefined is begin x.concat(k); return x; end;')]
             for k, e in enumerate(CODE_S):
-                ops.append(op_run('sv = "ab"; bv = raw("ab"); ' + guarded(e, "r%d" % k)))
+                ops.append(op_run('sv = "ab"; bv = raw("ab"); nsv = str(); nbv = raw(); nuv = null; ' + guarded(e, "r%d" % k)))
             ops.append(op_dump())
             yield Case("c%d" % n, ops, {"kind": "code", "c": c})
             n += 1
@@ -512,7 +514,10 @@ def check(case, res):
                 continue
             if 0 <= c <= 255:
                 want = {0: ("s", bytes([c])), 1: ("s", bytes([c]) + b"b"), 2: ("s", b"ab" + bytes([c])), 3: ("x", bytes([c]) + b"b"),
-                        4: ("x", b"ab" + bytes([c])), 5: ("x", bytes([c])), 6: ("s", bytes([c]) + b"ab"), 7: ("x", bytes([c]) + b"ab")}[k]
+                        4: ("x", b"ab" + bytes([c])), 5: ("x", bytes([c])), 6: ("s", bytes([c]) + b"ab"), 7: ("x", bytes([c]) + b"ab"),
+                        8: ("s", bytes([c])), 9: ("x", bytes([c])), 12: ("s", bytes([c])), 13: ("x", bytes([c])),
+                        # an untyped null becomes a string, or a bytes array for the code 0 (a string cannot hold NUL by concat)
+                        10: ("x" if c == 0 else "s", bytes([c])), 11: ("x" if c == 0 else "s", bytes([c]))}[k]
                 if s.get("r") != "ok" or g != want:
                     bad("model:code:" + e.split("(")[0], "%s with %d gave %s %r, expected %r" % (e, c, s.get("r"), g, want))
             else:
